@@ -107,7 +107,8 @@ def path(eng, acc, task, focus='C05'):
     fails = []
     try:
         g = OpGraph.from_opchains(chains, L, 0)
-    except (AssertionError, ValueError, IndexError, KeyError, TypeError, RuntimeError) as e:
+    except Exception as e:
+        reraise_internal(e)
         # allowed only if every coefficient is zero on this path (the identically-zero operator is excluded)
         if all(coeff_status(eng, ch.coeff) is False for ch in chains):
             acc.inc('all_zero_paths')
@@ -176,7 +177,8 @@ def mpo_vcs(eng, acc, g, words, L, ids, qd, opmap=None):
     try:
         mpo = MPO.from_opgraph(qd, g, opmap, compute_nid_map=True)
         M = mpo.as_matrix()
-    except (AssertionError, ValueError, IndexError, KeyError, TypeError) as e:
+    except Exception as e:
+        reraise_internal(e)
         return [f'from_opgraph raised {type(e).__name__}: {e}']
     ref = W.words_matrix(words, opmap, d)
     goals = [S(M[i, j]) - S(ref[i, j]) for i in range(M.shape[0]) for j in range(M.shape[1])]
@@ -228,7 +230,8 @@ def path_mpo_q(eng, acc, task):
     inputs = dict(L=L, g=gq, chains=[dict(oids=list(ch.oids), qnums=list(ch.qnums), coeff=ch.coeff, istart=ch.istart) for ch in chains])
     try:
         g = OpGraph.from_opchains(chains, L, 0)
-    except (AssertionError, ValueError, IndexError, KeyError, TypeError, RuntimeError) as e:
+    except Exception as e:
+        reraise_internal(e)
         if all(coeff_status(eng, ch.coeff) is False for ch in chains):
             return
         candidate(eng, acc, task, 'opchains_mpo', f'opchains_mpo:raises:{type(e).__name__}', repr(e), inputs)
